@@ -1,0 +1,33 @@
+//go:build verif
+
+package encoder
+
+// Contracts (structured comments read by /verif/engine). Comment-only file.
+
+// ---------------------------------------------------------------------------
+// C04: decode(encode(x)) == x, bit for bit, for the scalar constant kinds.
+
+//@ lemma intRoundTrip
+//@ vars v Int
+//@ ensures specIntRoundTrip(v)
+//@ property C04
+
+//@ lemma uintRoundTrip
+//@ vars v Uint
+//@ ensures specUintRoundTrip(v)
+//@ property C04
+
+//@ lemma charRoundTrip
+//@ vars v Char
+//@ ensures specCharRoundTrip(v)
+//@ property C04
+
+//@ lemma floatRoundTrip
+//@ vars v Float
+//@ ensures specFloatRoundTrip(v)
+//@ property C04
+
+//@ lemma boolRoundTrip
+//@ vars v Bool
+//@ ensures specBoolRoundTrip(v)
+//@ property C04
